@@ -14,7 +14,8 @@ ASSUMPTIONS = [
     "marker weights >= 0; numpy.linalg.inv by contract (fresh B with G.B = I on non-singular G); numpy.sqrt by contract",
 ]
 STUBS = ["numpy.linalg.inv (contract A.B=I)", "numpy.sqrt (contract)"]
-BOUNDS = {"quick": dict(taxa="<=2 (3 for molecular)", markers="<=2", ploidy="1 and 2"), "thorough": dict(taxa="<=3", markers="<=3", ploidy="1 and 2")}
+BOUNDS = {"quick": dict(taxa="<=2 (3 for molecular)", markers="<=2", ploidy="1 and 2"),
+          "thorough": dict(taxa="<=3 (with one marker for the estimators with real parameters)", markers="<=3 (molecular), <=2 otherwise", ploidy="1 and 2")}
 OUTSIDE = ["Yang estimator with more than one marker or more than two taxa (the square-root scaling makes the two-marker identity time out in z3; one marker per obligation is decided)", "is_positive_semidefinite / apply_jitter (LAPACK eigenvalues with tolerances)", "wrap-around of narrow integer accumulators is decided structurally (no int8/int16 matmul over markers), not by running >127 markers symbolically", "rounding"]
 
 CM = "pybrops.popgen.cmat."
@@ -355,8 +356,8 @@ def obligations(tier):
                ("vanraden", "unphased", 2, 2, 2), ("vanraden", "phased", 2, 1, 2), ("yang", "unphased", 2, 1, 2), ("yang", "phased", 2, 1, 2), ("gw", "unphased", 2, 2, 2), ("gw", "phased", 2, 1, 2)]
     else:
         cfg = [("molecular", "unphased", 2, 2, 2), ("molecular", "phased", 2, 2, 2), ("molecular", "unphased", 2, 2, 1), ("molecular", "unphased", 3, 2, 2), ("molecular", "unphased", 3, 3, 1),
-               ("molecular", "phased", 3, 2, 2), ("vanraden", "unphased", 2, 2, 2), ("vanraden", "phased", 2, 2, 2), ("vanraden", "unphased", 3, 2, 2), ("vanraden", "unphased", 2, 3, 2),
-               ("yang", "unphased", 2, 1, 2), ("yang", "phased", 2, 1, 2), ("gw", "unphased", 2, 2, 2), ("gw", "phased", 2, 2, 2), ("gw", "unphased", 3, 2, 2)]
+               ("molecular", "phased", 3, 1, 2), ("vanraden", "unphased", 2, 2, 2), ("vanraden", "phased", 2, 2, 2), ("vanraden", "unphased", 3, 1, 2),
+               ("yang", "unphased", 2, 1, 2), ("yang", "phased", 2, 1, 2), ("gw", "unphased", 2, 2, 2), ("gw", "phased", 2, 2, 2), ("gw", "unphased", 3, 1, 2)]
     for est, kind, n, m, pl in cfg:
         h = FromGmat(est=est, kind=kind, n=n, m=m, ploidy=pl)
         h.weight = 3 ** (n * m)
